@@ -183,6 +183,16 @@ C01_Contains == IsOp("Lookup") =>
    \A t \in last.res : /\ 0 <= t[2] /\ t[2] < Pow2(t[1]) /\ 0 <= t[3] /\ t[3] < Pow2(t[1])
                        /\ (PointCell(last.a[1]) \in Unit => InRegion(PointCell(last.a[1]), t))
 
+\* A lattice point also stands for every point of the lattice cell it is the corner of: any point of a
+\* twice finer lattice inside that cell has the same voxel at every zoom not finer than the cell
+\* (this is what lets the harness abstract an arbitrary coordinate to the cell that contains it).
+C01_CellStandsForItsPoints == IsOp("Lookup") =>
+   LET p == last.a[1]  h == last.a[2]  v == last.a[3] IN
+     (p[6] = 0 /\ h <= p[1] /\ v <= p[4]) =>
+        \A du \in 0..3, dw \in 0..3, da \in 0..3 :
+           LET q == <<p[1] + 2, 4 * p[2] + du, 4 * p[3] + dw, p[4] + 2, 4 * p[5] + da, 0>>
+           IN  PointToVoxel(q, h, v, TRUE) = PointToVoxel(p, h, v, TRUE)
+
 \* C07 / C08 on the machine: shifting keeps indices in range and is a bijection
 C07_InRange == IsOp("Shift") => \A t \in last.res : ValidAbsId(t)
 C07_Bijective == IsOp("Shift") => Cardinality(last.res) = Cardinality(last.pre)
